@@ -623,10 +623,14 @@ func c14Race(t *engine.T, only string) {
 				out := string(outb)
 				t.Count("free_running_executions", int64(reps))
 				if strings.Contains(out, "WARNING: DATA RACE") {
-					return "", engine.Failf("data-race", "race detector report: %s", c14RaceSummary(out))
+					f := engine.Failf("data-race", "race detector report: %s", c14RaceSummary(out))
+					f.Loose = true
+					return "", f
 				}
 				if strings.Contains(out, "fatal error: concurrent map") {
-					return "", engine.Failf("data-race", "%s", firstLineWith(out, "fatal error"))
+					f := engine.Failf("data-race", "%s", firstLineWith(out, "fatal error"))
+					f.Loose = true
+					return "", f
 				}
 				if strings.Contains(out, "RESULT-MISMATCH") {
 					return "", engine.Failf("wrong-result", "%s", firstLineWith(out, "RESULT-MISMATCH"))
@@ -668,7 +672,7 @@ func c14RaceSummary(out string) string {
 	for _, l := range strings.Split(rep, "\n") {
 		l = strings.TrimSpace(l)
 		if strings.Contains(l, "plush") && strings.Contains(l, "(") && !strings.Contains(l, ".go:") && !strings.Contains(l, "verifmc") {
-			if k := strings.Index(l, "("); k > 0 {
+			if k := strings.LastIndex(l, "("); k > 0 {
 				l = l[:k]
 			}
 			if !seen[l] {
